@@ -96,6 +96,10 @@ WordOf(segs) == [i \in 1..Len(segs) |-> SegKinds[segs[i]]]
 (***************************************************************************)
 Expected(segs) == [i \in 1..Len(IFSNames) |-> Split(WordOf(segs), IFSOf(IFSNames[i]))]
 
+(* the word behind an unquoted "~/" with HOME = "x,1": the directory is not split (its characters count as quoted) *)
+HomeQ == <<[c |-> "x", q |-> TRUE], [c |-> ",", q |-> TRUE], [c |-> "1", q |-> TRUE], [c |-> "/", q |-> FALSE]>>
+ExpectedTilde(segs) == [i \in 1..Len(IFSNames) |-> Split(HomeQ \o WordOf(segs), IFSOf(IFSNames[i]))]
+
 Holds(rec) == /\ rec.obs.lit = rec.exp
               /\ rec.obs.var = rec.exp
 =============================================================================
